@@ -47,14 +47,14 @@ RULE = (
 )
 
 ASSUMPTIONS = [
-    "CSV: every exported series has at least one observation; a series with no observation inside the exported span may come back absent or observation-free (round trip of empty series is undocumented)",
+    "CSV: a series with observations none of which lies inside the exported span may come back absent or observation-free; series without any observation are generated only when neither names nor a span/frequency selection is given, and must then come back by name, observation-free, with their number of variants",
     "CSV: scalars, lists and other non-series items are not exported (to_csv_file documents time series only); they are present in the box and must simply be ignored",
     "CSV: names are ASCII identifiers (never '*', never starting with '__', which the format reserves); descriptions contain no line breaks; nan_str is one of '', NaN, nan, NA, -, ., n/a, missing (a nan_str containing '#', the delimiter or a numeric literal cannot be read back by numpy.genfromtxt and is not generated)",
     "CSV: numeric_format, date_formatter/period_from_string pairs, csv_writer_settings/csv_reader_settings/numpy_reader_settings and name_row_transform are not exercised (numeric_format is accepted but unused by the implementation; not judged)",
     "CSV: span= is a forward span (any step), a backward span of step -1 or an increasing tuple of periods; frequency_span= entries are contiguous forward spans; start_period_only is only combined with consecutive forward rows; the description row is requested on both sides or on neither",
     "CSV: tolerance after round=r is 0.5*10**-r plus 8 ulp of the value; round=None must be exact",
     "Dataslate: periods are a contiguous forward span of the frequency of every requested series; items are series, real scalars or lists of real scalars; a series/list with fewer variants than num_variants repeats its last variant (library-wide convention, exhaust_then_last)",
-    "Dataslate: clip_data_to_base_span is only combined with empty fallbacks/overwrites (their interplay is undocumented); output_names, validators and logly options are not exercised",
+    "Dataslate: with clip_data_to_base_span the input values are kept on the base columns only and the declared fallbacks and overwrites then fill the whole span (the statement's 'NaN elsewhere, filled only by the declared fallbacks and overwrites'); validators and logly options are not exercised",
     "machine: overlay/underlay/prepend are judged with the Series.overlay/underlay docstring algorithm; where a series is untrimmed after clip() the documented 'first to last available observation' span and the stored start..end span differ and either result is accepted; when either side has no observation the item may also stay unchanged (Databox._lay skips series of unknown frequency)",
     "machine: operations whose outcome is undocumented are skipped and counted under skipped_* labels: overlay/underlay names pointing at non-series items, the same name holding different frequencies or kinds in the two boxes, variant counts that cannot broadcast (k vs 1 only), rename onto an existing name or with duplicate targets (the implementation pops and assigns sequentially, so a swap loses an item - observed, not asserted), source/target lists of different lengths, clip with start > end",
     "machine: merge is always given a deep copy of the other box (merge stores the other box's objects without copying; aliasing after merge is undocumented), after first replacing the other box by its own copy(); descriptions of stacked series are not judged; after 'error'/'critical' only the raise is asserted (on a throwaway copy)",
@@ -321,7 +321,12 @@ def _csv_case(draw):
         scale = 10.0 ** draw(st.sampled_from([0, 0, 0, -7, -3, 2, 6]))
         ser = draw(_series_near(f, anchors[f], max_len=20 if f == 365 else 12, spread=8, scale=scale))
         items.append({"name": name, "desc": draw(_DESC), "series": ser})
-    return {"items": items, "extras": extras, "opts": opts}
+    # observation-free series (no start, unknown frequency): exported in a block of their own when neither names nor
+    # a span/frequency selection is given; only generated in that setting
+    empties = []
+    if name_sel is None and sel is None:
+        empties = [[f"zz_empty{k}", draw(st.sampled_from([1, 1, 2, 3])), draw(_DESC)] for k in range(draw(st.sampled_from([0, 0, 1, 2])))]
+    return {"items": items, "extras": extras, "opts": opts, "empties": empties}
 
 
 def _csv_plan(case):
@@ -449,6 +454,9 @@ def _check_csv(case):
         db[it["name"]] = rs.build(refs[it["name"]], description=it["desc"])
     for name, val in case["extras"]:
         db[name] = copy.deepcopy(val)
+    empties = list(case.get("empties") or []) if exported else []
+    for name, nv_, desc_ in empties:
+        db[name] = ir.Series(num_variants=nv_, description=desc_)
     before = {n: _snap(db[n]) for n in db.keys()}
 
     def span_of(f, lo, hi):
@@ -523,9 +531,10 @@ def _check_csv(case):
                 ok = isinstance(info, dict) and "names_exported" in info
                 col.check(ok, "csv:info", lambda: f"return_info=True returned {info!r}")
                 if ok:
-                    col.check(sorted(info["names_exported"]) == sorted(exported),
+                    want_names = sorted(list(exported) + [e[0] for e in empties])
+                    col.check(sorted(info["names_exported"]) == want_names,
                               "csv:info_names_exported" + tag,
-                              lambda: f"names_exported {sorted(info['names_exported'])}, expected {sorted(exported)}")
+                              lambda: f"names_exported {sorted(info['names_exported'])}, expected {want_names}")
             back = api("csv:read" + tag, ir.Databox.from_csv_file, path, **rkw)
     finally:
         shutil.rmtree(tmp, ignore_errors=True)
@@ -540,7 +549,12 @@ def _check_csv(case):
     got_names = list(back.keys())
     col.check(len(set(got_names)) == len(got_names), "csv:names_duplicated", lambda: f"{got_names}")
     missing = [n for n in judged if n not in back]
-    extra = [n for n in got_names if n not in exported]
+    extra = [n for n in got_names if n not in exported and n not in [e[0] for e in empties]]
+    for name, nv_, desc_ in empties:
+        x = back[name] if name in back else None
+        ok = isinstance(x, ir.Series) and x.start is None and x.num_variants == nv_
+        col.check(ok, "csv:observation_free_series_lost" + tag,
+                  lambda: f"series {name!r} ({nv_} variants, no observations) came back as {x!r}; names read back {got_names}")
     col.check(not missing, "csv:names_missing" + tag, lambda: f"exported {exported}, read back {got_names}: missing {missing}")
     col.check(not extra, "csv:names_unexpected" + tag, lambda: f"expected {exported}, read back {got_names}: unexpected {extra}")
     for n in judged:
@@ -600,7 +614,10 @@ def _slate_case(draw):
         base = [b0, draw(st.integers(b0, n - 1))]
         to_span = draw(st.sampled_from(["full", "base"]))
         if draw(st.booleans()):
-            clip_base, fb, ow = True, [], []
+            # input data are clipped to the base columns first; declared fallbacks and overwrites then fill the whole span
+            clip_base = True
+            if draw(st.booleans()):
+                fb, ow = [], []
     descriptions = None
     if req is not None and draw(st.integers(0, 2)) == 0:
         descriptions = [draw(st.sampled_from(["", "d1", "some, text", None])) for _ in req]
